@@ -41,7 +41,7 @@ ASSUMPTIONS = [
     "cores not requested may only change from wait to run, through the "
     "start signal addressed to their application id",
 ]
-FLOORS = {"default_left_out": 400, "filename_and_targets_form": 100, "load_checked": 300, "fill_wellformed": 500, "retry_narrowed": 100,
+FLOORS = {"fill_identifier_advanced": 500, "default_left_out": 400, "filename_and_targets_form": 100, "load_checked": 300, "fill_wellformed": 500, "retry_narrowed": 100,
           "loading_error_exact": 40, "returned_all_loaded": 150,
           "count_mode": 80, "percore_mode": 80}
 ANCHORS = [("rig.machine_control.machine_controller",
@@ -261,6 +261,15 @@ def run_(case, ctx):
         r.net.plan = None
         del m.protocol_errors[:]
     mc = r.mc
+    if hasattr(mc, "_get_next_nn_id") and (case["buf"] + case["n_tries"]) % 3:
+        # a controller that has been loading applications all day: its fill
+        # identifiers (1..126, sent doubled) are anywhere in their cycle
+        k = [61, 62, 63, 64, 100, 124, 125, 126, 127, 7][
+            (case["buf"] // 4 + len(case["bins"]) + case["app_id"]) % 10]
+        for _ in range(k):
+            mc._get_next_nn_id()
+        m.last_fill_id = None
+        ctx.hit("fill_identifier_advanced")
     tmp = tempfile.mkdtemp(prefix="rv-c09-")
     try:
         names = []
